@@ -15,19 +15,22 @@ ACTIONS = ["SndHandshake", "SndList", "SndLoop", "MainHandshake", "MainList", "M
            "GenEntry", "GenSums", "GenMarkers", "RcvRead", "RcvToks", "RcvCommit"]
 
 
-def design_cfg(fam, capup, capdown, liveness=True, mutant=False):
+def design_cfg(fam, capup, capdown, liveness=True, mutant=False, modes='{"cmd"}', orders='{"asc", "desc"}'):
     u, p = p_recv.FAMILIES[fam]
     c = ("SPECIFICATION RSpec\nCONSTANTS\n  Family = \"%s\"\n  Universe <- %s\n  ParentMap <- %s\n  BaseMap <- BaseAll\n  MaxRules = 1\n"
-         "  CapUp = %d\n  CapDown = %d\n  RcvAfterGen = %s\nINVARIANTS %s\nPROPERTIES %s\nCHECK_DEADLOCK TRUE\n" % (
-             fam[:3], u, p, capup, capdown, "TRUE" if mutant else "FALSE", INVARIANTS, PROPERTIES if liveness else "RefinesRecvSide CommitOnlyVerified"))
+         "  CapUp = %d\n  CapDown = %d\n  Modes = %s\n  ListOrders = %s\n  RcvAfterGen = %s\nINVARIANTS %s\nPROPERTIES %s\nCHECK_DEADLOCK TRUE\n" % (
+             fam[:3], u, p, capup, capdown, modes, orders, "TRUE" if mutant else "FALSE", INVARIANTS, PROPERTIES if liveness else "RefinesRecvSide CommitOnlyVerified"))
     return c
 
 
-def design(w, caps=((0, 0), (1, 1), (2, 3)), fam="rs"):
+def design(w, caps=((0, 0), (1, 1), (2, 3)), fam="rs", any_order_at=None):
     """Model-check Rsync.tla on a scenario family for several channel capacities."""
     runs = []
     for k, (cu, cd) in enumerate(caps):
-        r = w.tlc_ok("MCRsync", design_cfg(fam, cu, cd), coverage=(k == 0), label="Rsync-%s-cap%d_%d" % (fam, cu, cd), timeout=3000)
+        # the daemon greeting exchange (both ends write before they read) needs a buffering transport: capacity >= 1
+        modes = '{"cmd"}' if 0 in (cu, cd) else '{"cmd", "daemon"}'
+        orders = '{"any"}' if any_order_at == (cu, cd) else '{"asc", "desc"}'
+        r = w.tlc_ok("MCRsync", design_cfg(fam, cu, cd, modes=modes, orders=orders), coverage=(k == 0), label="Rsync-%s-cap%d_%d" % (fam, cu, cd), timeout=3000)
         if k == 0:
             r["cov"] = require_coverage(r, ACTIONS)
         runs.append(r)
@@ -35,13 +38,17 @@ def design(w, caps=((0, 0), (1, 1), (2, 3)), fam="rs"):
     m = w.tlc("MCRsync", design_cfg(fam, 0, 0, liveness=False, mutant=True), label="Rsync-%s-mutant" % fam, timeout=3000)
     if not m["deadlock"]:
         raise Broken("Rsync.tla: the sequential-receiver mutant does not deadlock at capacity 0 - the model cannot tell")
+    # ... and the daemon greeting exchange over zero-capacity pipes cannot start (design fact, stated in Rsync.tla)
+    d = w.tlc("MCRsync", design_cfg(fam, 0, 0, liveness=False, modes='{"daemon"}'), label="Rsync-%s-daemon-cap0" % fam, timeout=3000)
+    if not d["deadlock"]:
+        raise Broken("Rsync.tla: the daemon greeting exchange does not deadlock at capacity 0 - the channel model is wrong")
     return runs
 
 
 def trace_cfg(fam):
     u, p = p_recv.FAMILIES[fam]
     return ("SPECIFICATION TSpec\nCONSTANTS\n  Family = \"%s\"\n  Universe <- %s\n  ParentMap <- %s\n  BaseMap <- BaseAll\n  MaxRules = 0\n"
-            "  CapUp = 1000000\n  CapDown = 1000000\n  RcvAfterGen = FALSE\nCHECK_DEADLOCK TRUE\n" % (fam[:3], u, p))
+            "  CapUp = 1000000\n  CapDown = 1000000\n  Modes = {\"cmd\", \"daemon\"}\n  ListOrders = {\"any\"}\n  RcvAfterGen = FALSE\nCHECK_DEADLOCK TRUE\n" % (fam[:3], u, p))
 
 
 def slim_nodes(nodes):
@@ -55,7 +62,7 @@ def rows_of(obs):
         fw = o.get("fullwire")
         if not fw:
             continue
-        rows.append({"id": o["id"], "dir": fw["dir"], "events": fw["events"], "parse_err": fw.get("err", ""),
+        rows.append({"id": o["id"], "dir": fw["dir"], "mode": fw.get("mode", "cmd"), "events": fw["events"], "parse_err": fw.get("err", ""),
                      "src": slim_nodes(o["src"]), "dst": slim_nodes(o["dst"]), "final": slim_nodes(o["final"]), "extra": o["extra"],
                      "result": o["result"], "opts": o["opts"], "rules": o["rules"], "judge": [j for j in o["judge"] if j not in ("peers", "repeat")]})
     return rows
@@ -92,6 +99,9 @@ def corrupt(row, rnd):
         kinds.append("ent")
     if toks:
         kinds.append("tok")
+    args = [i for i, e in enumerate(ev) if e["item"] == "args"]
+    if args:
+        kinds += ["args", "args"]
     how = rnd.choice(kinds)
     if how == "swap":          # the goodbye before the second phase marker's acknowledgement / statistics
         i = max(i for i, e in enumerate(ev) if e["item"] == "bye")
@@ -104,6 +114,9 @@ def corrupt(row, rnd):
         ev[i]["f"] += 1
     elif how == "ent":
         ev[rnd.choice(ents)]["sz"] += 1
+    elif how == "args":        # an option does not reach the server (or one reaches it that the user did not give)
+        k = rnd.choice(["r", "l", "p", "t", "dv", "sp", "c", "I", "n", "del"])
+        ev[args[0]]["sopts"][k] = not ev[args[0]]["sopts"][k]
     elif how == "tok":
         ev[rnd.choice(toks)]["lit"] += 1
     else:
